@@ -41,7 +41,7 @@ PROPS = {
             "sections": [dict(hist("hist", ["apply", "copy", "rownums", "eval", "sort"], quick=250), cover_ops=None)],
             "rule": "every step of every generated history re-observes all earlier family members (digest of the full observation); "
                     "evaluations = observations compared; non-trivial = successful operation on a result with >= 2 rows; distinct by (operation, result)"},
-    "C02": {"lean": ["QF.Props.C02", "QF.Props.C02Spec", "QF.Props.C02Mirror"], "extra_ns": ["QF.Props.C02Spec", "QF.Props.C02Mirror"],
+    "C02": {"lean": ["QF.Props.C02", "QF.Props.C02Spec", "QF.Props.C02Mirror", "QF.Props.C02Kernels"], "extra_ns": ["QF.Props.C02Spec", "QF.Props.C02Mirror", "QF.Props.C02Kernels"],
             "sections": [hist("hist", ["filter"]),
                          {"section": "hist", "tag": "hist-filter", "opt": "ops=filter+filter+filter+filter+sort+slice+distinct", "quick": 400, "thorough": 4000, "cover_ops": {"filter"}}]},
     "C03": {"lean": ["QF.Props.C03", "QF.Props.C03Spec"],
@@ -71,7 +71,7 @@ PROPS = {
                          {"section": "csvread", "quick": 300, "thorough": 3000, "cover_ops": {"CV"}}],
             "rule": "cases = (document, read schedule) pairs read by the real fastcsv reader / ReadCSV and replayed through the L0 mirror (exact rows, errors, stale bytes) "
                     "and the RFC 4180 scanner (what the document denotes); distinct by transcript line; every generated document has quotes, delimiters or line breaks in cells with probability > 1/2"},
-    "C16": {"lean": ["QF.Props.C16", "QF.Props.C16Tables", "QF.Props.C16Layouts"],
+    "C16": {"lean": ["QF.Props.C16", "QF.Props.C16Tables", "QF.Props.C16Layouts", "QF.Props.C16Round"], "extra_ns": ["QF.Props.C16Round"],
             "sections": [{"section": "ryu", "quick": 300, "thorough": 5000, "cover_ops": {"F"}},
                          dict({"section": "hist", "tag": "hist-jsonfloat", "opt": "floatheavy=1," + mix("tojson", "tojson", "sort", "filter"), "quick": 120, "thorough": 1500},
                               cover_ops={"tojson"}, owns=lambda m: m["op"] == "tojsonfloat")],
